@@ -152,6 +152,16 @@ func (f *formatter) Root(n *ast.Root) {
 	f.addIndent()
 
 	f.formatStmts(&n.Stmts)
+
+	if n.EndTkn != nil {
+		var keep []*token.Token
+		for _, ff := range n.EndTkn.FreeFloating {
+			if ff.ID == token.T_HALT_COMPILER {
+				keep = append(keep, ff)
+			}
+		}
+		n.EndTkn.FreeFloating = keep
+	}
 }
 
 func (f *formatter) Nullable(n *ast.Nullable) {
